@@ -686,14 +686,14 @@ func C06() *check.Property {
 		Title:    "Unsubscribe cuts delivery; IsClosed, Wait and Collect tell the truth",
 		Patterns: CorePatterns,
 		Scope:    []string{ro},
-		Rules:    []check.Rule{ruleUnsubFlipsFirst(), ruleNoProducerLockInQueries(), ruleSelfUnsubscribe(), ruleWaitSignal(), ruleCollectWaits(), ruleFinalizerDiscipline(), ruleGatesOf(false), ruleWaitImplementors(), ruleCallbackReentrancy(), ruleNoEmitUnderTeardownLock(), ruleSubjectDelivers()},
+		Rules:    []check.Rule{ruleUnsubFlipsFirst(), ruleNoProducerLockInQueries(), ruleSelfUnsubscribe(), ruleWaitSignal(), ruleCollectWaits(), ruleFinalizerDiscipline(), ruleGatesOf(false), ruleWaitImplementors(), ruleCallbackReentrancy(), ruleNoEmitUnderTeardownLock(), ruleSubjectDelivers(), ruleTeardownDoesNotNotify()},
 		Explanation: "Static ordering / who-may-lock checks over subscriber.go, subscription.go and observable.go. Unsubscribe closes the status word (won compare-and-swap) before running finalizers, so with the Next gate of C01 a notification whose emission starts after Unsubscribe returned " +
 			"is refused; the query methods and Unsubscribe never take the producer lock (callable from inside a callback); terminal notifications are delivered before the subscriber closes itself; Wait blocks only on a buffered channel signalled solely by a teardown it registers " +
 			"(run at once if already closed), so it returns iff the subscription is or gets closed; Collect waits on the collecting subscription before every return and returns exactly what its observer gathered; Unsubscribe is idempotent (FINALIZER-DISCIPLINE); no other type shortcuts Wait (WAIT-IMPLEMENTORS); no subject notifies an observer while holding a lock its subscriber teardown takes, so Unsubscribe from inside a callback cannot dead-lock (CALLBACK-REENTRANCY).",
 		NotDecided:  "the real-time ordering 'began afterwards' itself (follows from the compare-and-swap and the gate; argued, not model-checked); concurrent callers beyond the guarded-by discipline.",
 		Assumptions: []string{"sync/atomic, sync.Mutex and channel semantics"},
 		Floors:      map[string]int{"query_methods": 4, "gated_calls": 3, "field_accesses": 8, "subject_deliveries_checked": 3, "scs_with_locking_teardown": 8},
-		Controls:    map[string]string{"zz_verif_controls_c06.go": roControl(controlsC06)},
+		Controls:    map[string]string{"zz_verif_controls_c06.go": roControl(controlsC06 + controlsTeardownNotify)},
 	}
 }
 
@@ -731,5 +731,63 @@ func (w *verifControlWaiter) Wait() {
 		return
 	}
 	w.Subscription.Wait()
+}
+`
+
+// TEARDOWN-DOES-NOT-NOTIFY: a teardown sends no notification to an observer the operator handed out.
+func ruleTeardownDoesNotNotify() check.Rule {
+	return check.Rule{
+		Name:        "TEARDOWN-DOES-NOT-NOTIFY",
+		NeedControl: true,
+		Doc:         "no teardown of an operator sends a notification (directly, or in a local closure it calls) to an observer other than the destination — an inner subject the operator handed downstream (a group, a window). The consumer of that inner observable receives its notifications under the non-reentrant mutex of its safe subscriber; when it is that consumer which unsubscribes the outer stream from inside its callback (a downstream Take completing, a hand-written observer), the teardown runs synchronously on the same goroutine and the notification blocks for ever on the mutex held further up the stack: Unsubscribe never returns, Wait and Collect hang",
+		Run: func(c *check.Ctx) {
+			m := c.M
+			n := 0
+			for _, sc := range m.SCs {
+				if !c.Armed(sc) && !check.IsControlName(sc.Name) {
+					continue
+				}
+				for _, e := range sc.Emits {
+					if e.ToDest {
+						continue
+					}
+					inTeardown := false
+					for cx := e.Ctx; cx != nil; cx = cx.Parent {
+						if cx.Kind == model.KTeardown {
+							inTeardown = true
+						}
+						if cx.Kind == model.KGo || cx.Kind == model.KTimer {
+							break // another goroutine: no lock of the caller is held there
+						}
+					}
+					if !inTeardown {
+						continue
+					}
+					n++
+					c.Report(c.Armed(sc), e.Key+"/in-teardown", e.Pos, "the teardown sends a %s notification to an observer the operator handed downstream: when the unsubscription comes from inside a callback of that observer's consumer, its subscriber mutex is already held on this goroutine and the teardown dead-locks (Unsubscribe called from inside a callback never returns)", model.SlotNames[e.Kind])
+				}
+				if c.Armed(sc) {
+					c.OK(sc.String()+"/teardown-silent", sc.Lit.Pos(), "checked")
+				}
+			}
+			c.Inc("teardown_notifications", n)
+		},
+	}
+}
+
+const controlsTeardownNotify = `
+func verifControlTeardownNotifies[T any]() func(Observable[T]) Observable[Observable[T]] {
+	return func(source Observable[T]) Observable[Observable[T]] {
+		return NewUnsafeObservableWithContext(func(subscriberCtx context.Context, destination Observer[Observable[T]]) Teardown {
+			inner := NewUnicastSubject[T](16)
+			destination.NextWithContext(subscriberCtx, inner)
+			sub := source.SubscribeWithContext(subscriberCtx, NewObserverWithContext(
+				inner.NextWithContext, destination.ErrorWithContext, destination.CompleteWithContext))
+			return func() {
+				sub.Unsubscribe()
+				inner.CompleteWithContext(subscriberCtx)
+			}
+		})
+	}
 }
 `
